@@ -319,3 +319,34 @@ package protocol
 //@   ensures req.body == nil || req.body == old(req.body)
 //@   ensures req.Header.trailer == old(req.Header.trailer) || (old(req.Header.trailer) == nil && fresh(req.Header.trailer))
 //@   ensures req.isTLS == old(req.isTLS)
+
+// ---- C04: framing decisions of a response ----
+//@ macro noBodyStatus(code) = (100 <= code && code < 200) || code == 204 || code == 304
+
+//@ func ResponseHeader.MustSkipContentLength(h) r
+//@   props C04
+//@   top-ensures r == noBodyStatus(h.statusCode)
+
+//@ func Response.MustSkipBody(resp) r
+//@   props C04
+//@   top-ensures r == (resp.SkipBody || noBodyStatus(resp.Header.statusCode))
+
+// SetContentLength: a response that must not carry a body keeps its header untouched; otherwise the
+// numeric field is the argument and, for a known length, the text is AppendUint's rendering of it.
+//@ func ResponseHeader.SetContentLength(h, contentLength)
+//@   props C04
+//@   nosafety
+//@   modifies *
+//@   top-ensures old(noBodyStatus(h.statusCode)) ==> h.contentLength == old(h.contentLength) && sameSlice(h.contentLengthBytes, old(h.contentLengthBytes))
+//@   top-ensures !old(noBodyStatus(h.statusCode)) ==> h.contentLength == contentLength
+//@   top-ensures !old(noBodyStatus(h.statusCode)) && contentLength < 0 ==> len(h.contentLengthBytes) == 0
+//@   assert before AppendUint: arg1 == contentLength && len(arg0) == 0
+
+// Header argument lists (slices of argsKV): used at call sites with a frame only; not verified
+// against their bodies (copy of struct elements is outside the modelled subset) - listed as assumed.
+//@ func delAllArgsBytes(args, key) r
+//@   modifies alltype(protocol.argsKV), mem
+//@   allocates
+//@ func setArgBytes(h, key, value, noValue) r
+//@   modifies alltype(protocol.argsKV), mem
+//@   allocates
